@@ -72,26 +72,13 @@ Definition case_plans (c : case) : list (list call) :=
   | None => []
   end.
 
-(* When relays were asked and nothing is submitted, the instant at which Propose gives up is not
-   C05's business (the statement says: nothing is submitted); the code waits for the context, a
-   repair may return as soon as the last relay has failed.  Any instant up to the model's (the
-   deadline) is accepted there; everywhere else the instant is compared exactly. *)
-Definition ret_free (m : result) : bool :=
-  negb (is_some (o_submit m)) && negb (is_nil (concat (o_unblind m))).
-
-Definition with_ret (o : result) (t : N) : result :=
-  {| o_panic := o_panic o; o_events := o_events o; o_unblind := o_unblind o; o_submit := o_submit o; o_ret := t |}.
-
-Definition result_agrees (m o : result) : bool :=
-  result_eqb m (with_ret o (if ret_free m then o_ret m else o_ret o)) && (o_ret o <=? o_ret m).
-
 Definition agree (c : case) : bool :=
   let '((pevs, pok), res) := run (c_cfg c) (c_env c) (c_duty c) (c_prepare c) in
   events_eqb pevs (c_prep_events c)
   && bool_eqb pok (c_prep_ok c)
   && (* two relay goroutines acting at one fake instant: Go's scheduler decides, the model does not;
         the generator avoids it, and such a case is left to P_b *)
-     (negb (tie_free (e_deadline (c_env c)) (case_plans c)) || result_agrees res (c_obs c)).
+     (negb (tie_free (e_deadline (c_env c)) (case_plans c)) || result_eqb res (c_obs c)).
 
 (* ------------------------------------------------------------------------------------------- *)
 (* P_b: the property itself on the input and the OBSERVED behaviour; the model's [prepare], [propose]
